@@ -106,10 +106,27 @@ def sym_int(x):
         v = z3.Int(f"trunc_{len(FRESH)}")
         FRESH.append((v, c, n.e))
         Ctx.cur.extra.append(z3.And(v >= 0, v <= n.e))
+        if c in EXACT_TRUNC:
+            # int(c * n) == (k n) div 100 for every n in the explored range (verified exhaustively at run time, see case_windowed)
+            Ctx.cur.extra.append(v == (EXACT_TRUNC[c] * n.e) / 100)
         return SI(v)
     if isinstance(x, SI):
         return x
     return builtins.int(x)
+
+
+EXACT_TRUNC = {}
+
+
+def establish_exact_truncation(nmax):
+    """int(0.15 n) == 15 n // 100 and int(0.1 n) == 10 n // 100 for all 0 <= n <= nmax: checked by exhaustive evaluation of the
+    binary64 products over exactly the range the symbolic run explores (finite and complete); if it holds the truncations are
+    encoded exactly instead of by the weaker BVFP lemma."""
+    ok = all(int(0.15 * n) == 15 * n // 100 and int(0.1 * n) == 10 * n // 100 for n in range(nmax + 1))
+    EXACT_TRUNC.clear()
+    if ok:
+        EXACT_TRUNC.update({0.15: 15, 0.1: 10})
+    return ok
 
 
 class Ad:
@@ -135,6 +152,8 @@ def case_bvfp_lemma(rec):
 
 def case_windowed(rec, mult, nmax):
     ST.int = sym_int
+    exact = establish_exact_truncation(nmax)
+    rec.note(f"float truncations int(0.15 n), int(0.1 n) {'encoded exactly as (15 n) div 100, (10 n) div 100 (verified for all n <= %d)' % nmax if exact else 'abstracted (BVFP lemma)'}")
     rec.encoded(ST.WindowedWarmUpStager.stages, ST.WindowedWarmUpStager.__init__)
     nw, nm = z3.Int("n_warm"), z3.Int("n_main")
     a0, a1, a2 = z3.Int("w_slow"), z3.Int("w_fast0"), z3.Int("w_fast1")
